@@ -716,6 +716,9 @@ pub fn run(seed: u64, n: usize, replay: Option<Vec<String>>, out: &mut Out) {
         return;
     }
     let mut cases: Vec<(Option<String>, Case)> = vec![];
+    for c in crate::c01bnd::boundary(out, n >= 2000) {
+        cases.push((None, c));
+    }
     crate::c01gen::generate(seed, n, &mut cases, out);
     crate::c01vec::vectors(seed, n, &mut cases, out);
     for (extra, c) in cases {
